@@ -1,4 +1,5 @@
 import Scion.Model.Wire
+import Scion.Model.WireExt
 /-!
 Model of the SPAO authenticated data: `pkg/spao/mac.go` `serializeAuthenticatedData`,
 `zeroOutMutablePath`, `zeroOutWithBase`, and the input `ComputeAuthCMAC` hands to AES-CMAC
@@ -114,6 +115,39 @@ def macInput (a : AuthIn) : Except Err Bytes :=
   match authData a with
   | .error e => .error e
   | .ok d => .ok (d ++ a.pld)
+
+
+/-! ### where the upper layer starts: extension headers are skipped
+
+`ComputeAuthCMAC` is handed `PldType`/`Pld` by its callers (`router/dataplane.go` `prepareSCMP`,
+`hasValidAuth`; end hosts): the protocol number and the bytes of what follows the last extension
+header.  `upperLayer` is that walk over the SCION payload (at most one HBH, then at most one E2E
+extension, each `(ExtLen+1)·4` bytes). -/
+
+open Scion.WireExt in
+/-- the upper layer of a SCION payload whose first header has protocol number `nh` -/
+def upperLayer (nh : Nat) (payload : Bytes) : Option (Nat × Bytes) :=
+  if nh = 200 then
+    match decExtBase payload with
+    | .error _ => none
+    | .ok (b, _, p2) =>
+      if b.nextHdr = 200 then none
+      else if b.nextHdr = 201 then
+        match decExtBase p2 with
+        | .error _ => none
+        | .ok (b2, _, p3) => if b2.nextHdr = 200 ∨ b2.nextHdr = 201 then none else some (b2.nextHdr, p3)
+      else some (b.nextHdr, p2)
+  else if nh = 201 then
+    match decExtBase payload with
+    | .error _ => none
+    | .ok (b, _, p2) => if b.nextHdr = 200 ∨ b.nextHdr = 201 then none else some (b.nextHdr, p2)
+  else some (nh, payload)
+
+/-- the `MACInput` of a whole packet (header value, payload bytes) for given option metadata -/
+def packetAuthIn (h : Hdr) (payload : Bytes) (spi alg ts : Nat) : Option AuthIn :=
+  match upperLayer h.cmn.nextHdr payload with
+  | none => none
+  | some (t, pl) => some ⟨h, spi, alg, ts, t, pl⟩
 
 
 /-! ### specification vocabulary -/
